@@ -85,11 +85,15 @@ theorem npm_trimLeft : NPM trimLeftM := by
 
 theorem npm_trimRight : NPM trimRightM := fun _ => .ret _
 
+theorem npm_writeVerbatim (b : Bytes) : NPM (writeVerbatimM b) := by
+  unfold writeVerbatimM
+  exact npm_bind (npm_write _) (fun _ => npm_bind (npm_write b) (fun _ => npm_flush))
+
 theorem npm_writeAll : ∀ cs, NPM (writeAllM cs)
   | [] => npm_pure ()
   | c :: cs => by
     unfold writeAllM
-    exact npm_bind (npm_write c) (fun _ => npm_writeAll cs)
+    exact npm_bind (npm_writeVerbatim c) (fun _ => npm_writeAll cs)
 
 theorem runPure_noPanic {α} {p : Prog α} (hp : NoPanicProg p) : ∀ w, p.runPure.2 ≠ .panic w := by
   induction hp with
@@ -391,7 +395,7 @@ theorem np_renderNode (c : RCtx) (h : PrimsNoPanic c.P c.O) (hc : IncNoPanic c) 
     refine npm_wrapFailAt _ _ (npm_bind (npm_getVar _) (fun lv => ?_))
     split
     · exact npm_fail _
-    · exact npm_bind (npm_setVar _ _) (fun _ => npm_bind (npm_write _) (fun _ => npm_pure _))
+    · exact npm_bind (npm_setVar _ _) (fun _ => npm_bind (npm_writeVerbatim _) (fun _ => npm_pure _))
   | .brk line => by unfold renderNode; exact npm_pure _
   | .cont line => by unfold renderNode; exact npm_pure _
   | .incl line args => by
@@ -407,7 +411,7 @@ theorem np_renderNode (c : RCtx) (h : PrimsNoPanic c.P c.O) (hc : IncNoPanic c) 
           exact NoPanicProg.bind (hc _ _ _) (fun _ => .ret _)
         · obtain ⟨st, out⟩ := r
           cases st with
-          | done => exact npm_bind (npm_write _) (fun _ => npm_pure _)
+          | done => exact npm_bind (npm_writeVerbatim _) (fun _ => npm_pure _)
           | brk e => exact npm_pure _
           | cont e => exact npm_pure _
       · exact npm_fail _
